@@ -214,7 +214,7 @@ def frags_of(handle, m, first_pb, data):
 def gen_asm_case(rng):
     """Well-formed PDUs (fragments produced by the REAL Host.send_l2cap_pdu) with malformed
     fragment sequences injected before / between / after them."""
-    m = rng.choice([2, 3, 4, 5, 7, 8, 16, 27, 27, 64])
+    m = rng.choice([1, 1, 2, 3, 4, 5, 7, 8, 16, 27, 27, 64])
     handle = rng.choice([1, 2, 0x40])
     npdu = rng.range(1, 4)
     stream = []          # packets
@@ -227,11 +227,21 @@ def gen_asm_case(rng):
 
     def junk():
         kind = rng.choice(['cont', 'lost_start', 'truncated', 'stitched', 'overflow_last', 'overflow_start',
-                           'extra_cont', 'dup_start', 'short_start', 'pb3', 'big_announce'])
+                           'extra_cont', 'dup_start', 'short_start', 'pb3', 'big_announce', 'split_header', 'split_header'])
         kinds.append(kind)
         payload = rng.bytes(rng.choice([0, 1, 3, 4, m - 1, m, m + 1, 2 * m, 3 * m + 1, 40]))
         pdu = l2(rng.choice([4, 5, FIXED_CID]), b'\xEE' + payload)
         fr = frags_of(handle, m, rng.choice([0, 2]), pdu)
+        if kind == 'split_header':
+            # a start fragment shorter than the L2CAP length field (0 or 1 byte), the rest in continuations:
+            # a well-formed sequence (Core 5.2 Vol 3 Part A 1.4), the PDU must arrive
+            k = rng.below(2)
+            rest_ = pdu[k:]
+            cut = rng.choice([1, 2, 3, m, len(rest_)])
+            out = [[handle, rng.choice([0, 2]), 0, k, pdu[:k]]]
+            out += [[handle, 1, 0, len(rest_[o:o + cut]), rest_[o:o + cut]] for o in range(0, len(rest_), cut)]
+            allowed_extra.append(pdu)
+            return out
         if kind == 'cont':
             return [[handle, 1, 0, len(payload), payload]]
         if kind == 'lost_start':
@@ -263,7 +273,7 @@ def gen_asm_case(rng):
             allowed_extra.append(pdu)
             return [fr[0]] + fr
         if kind == 'short_start':
-            # only directly before a start fragment (see docs: behaviour on it is not compared)
+            # a short start fragment that is never completed: overwritten by the next start
             return [[handle, rng.choice([0, 2]), 0, 1, b'\x07']] if rng.chance(1, 2) else [[handle, 0, 0, 0, b'']]
         if kind == 'pb3':
             return [[handle, 3, 0, 2, b'\x01\x02']]
@@ -361,21 +371,17 @@ def asm_oracle(c, delivered):
 
 def spelled_out(packets):
     """The PDUs a packet stream spells out, stated over what was SENT only: the stream is cut
-    into segments at every start fragment; a segment is a well-formed sequence iff its start
-    fragment and the continuation fragments that follow it (up to the next start) reach exactly
-    the announced length at a packet boundary without exceeding it before; it then spells
-    that PDU.  Continuations before any start, after a completed / exceeded segment, and
-    anything a later start cuts short spell nothing.  pb=3 packets carry no statement."""
+    into segments at every start fragment; a segment is a well-formed sequence iff the data of
+    its start fragment (which may be shorter than the L2CAP length field, even empty) and of
+    the continuation fragments that follow it (up to the next start) reach exactly the announced
+    length at a packet boundary without exceeding it before; it then spells that PDU.
+    Continuations before any start, after a completed / exceeded segment, and anything a later
+    start cuts short spell nothing.  pb=3 packets carry no statement."""
     out = []
     cur = None
-    need = 0
     for f in packets:
         pb, data = f[1], f[4]
         if pb in (0, 2):
-            if len(data) < 2:
-                cur = None      # behaviour on it is unspecified; generators put a start right after it
-                continue
-            need = struct.unpack_from('<H', data, 0)[0] + 4
             cur = bytes(data)
         elif pb == 1:
             if cur is None:
@@ -383,6 +389,9 @@ def spelled_out(packets):
             cur += bytes(data)
         else:
             continue
+        if len(cur) < 2:
+            continue
+        need = struct.unpack_from('<H', cur, 0)[0] + 4
         if len(cur) == need:
             out.append(cur)
             cur = None
@@ -478,13 +487,15 @@ def gen_stale_case(rng):
     return {'m': m, 'handle': handle, 'stream': stream, 'good': good, 'extra': [], 'kinds': kinds}
 
 
-SCOPE_LETTERS = ['SC', 'SP', 'CC', 'CS', 'CO']
+SCOPE_LETTERS = ['SC', 'SP', 'S1', 'CC', 'CS', 'CO', 'CZ']
 
 
 def scope_packets(seq, handle):
     """Small-scope alphabet: SC start carrying a complete 7-byte PDU; SP start announcing 10
-    bytes and carrying 6 (4 missing); CC / CS / CO continuations of 4 (completes a fresh SP) /
-    2 (short; two of them complete) / 7 (exceeds) bytes.  Every packet has its own byte values."""
+    bytes and carrying 6 (4 missing); S1 start carrying only the first byte of the length field
+    (announcing, once completed by CZ, a 7-byte PDU); CC / CS / CO continuations of 4 (completes a
+    fresh SP) / 2 (short; two of them complete) / 7 (exceeds) bytes; CZ a 6-byte continuation that
+    completes a fresh S1 (and exceeds after SP).  Every packet has its own byte values."""
     out = []
     for i, letter in enumerate(seq):
         t = 0x10 * (i + 1)
@@ -495,6 +506,11 @@ def scope_packets(seq, handle):
         elif letter == 'SP':
             d = struct.pack('<HH', 6, FIXED_CID) + bytes([t, t + 1])
             out.append([handle, pb0, 0, len(d), d])
+        elif letter == 'S1':
+            out.append([handle, pb0, 0, 1, b'\x03'])
+        elif letter == 'CZ':
+            d = bytes([0, FIXED_CID, 0, t, t + 1, t + 2])
+            out.append([handle, 1, 0, len(d), d])
         else:
             n = {'CC': 4, 'CS': 2, 'CO': 7}[letter]
             d = bytes(t + j for j in range(n))
@@ -831,7 +847,7 @@ def model_cost(L, m_a, m_b):
 
 def gen_two_case(rng, big, quick=True):
     budget = 20000000 if quick else 100000000
-    ms = [2, 3, 4, 5, 7, 8, 16, 23, 27, 27, 32, 64, 251, 255, 256, 1021, 4096, 65535]
+    ms = [1, 2, 3, 4, 5, 7, 8, 16, 23, 27, 27, 32, 64, 251, 255, 256, 1021, 4096, 65535]
     geom = [(rng.choice(ms), rng.choice([1, 1, 2, 3, 8, 64])) for _ in range(2)]
     if big:
         geom = [(max(m, rng.choice([251, 1021, 4096] if quick else [27, 64, 251, 1021])), n) for m, n in geom]
@@ -949,7 +965,6 @@ def run(ctx):
     ctx.assumptions += [
         'the ACL data packet length used by a host is the one its controller announced (Host.reset, exercised in D)',
         'asyncio call_soon hand-overs between host, controller and link are FIFO',
-        'ACL data packet length >= 2 for reassembly (a 1-byte start fragment cannot carry the L2CAP length field; see docs/C05.md)',
     ]
     ctx.trusted += ['Model/Acl.v is a hand-written reading of host.py / hci.py / l2cap.py / controller.py, tied to the '
                     'code by differential execution only (no translator)']
@@ -1030,7 +1045,8 @@ def run(ctx):
     # small scope, complete: every sequence of up to N packets over {start-complete, start-partial,
     # continuation completing / short / exceeding}; judged by the oracle on the bare assembler and
     # through Host.on_packet; compared with the model up to a smaller N (50 sequences per expression)
-    n_bare, n_host, n_model = ctx.n(5, 7), ctx.n(4, 5), ctx.n(4, 6)
+    deep = (not ctx.quick()) or getattr(ctx, 'escalated', False)
+    n_bare, n_host, n_model = (6, 5, 5) if deep else (5, 4, 4)     # lengths, not counts: no ctx.n
     ctx.extra['exhaustive_assembler_scope'] = (f'all sequences over {SCOPE_LETTERS} of length <= {n_bare} (bare assembler), '
                                                f'<= {n_host} (Host.on_packet), <= {n_model} (also against the model)')
     feeder = HostFeeder(1)
@@ -1185,7 +1201,7 @@ def run(ctx):
         for kind in c['kinds']:
             ctx.count('B.junk.' + kind)
         for code in codes:
-            ctx.count('B.model_branch.' + ['deliver', 'cont_no_start', 'overflow', 'short_start', 'no_data'][code])
+            ctx.count('B.model_branch.' + ['deliver', 'cont_no_start', 'overflow', 'short_start_before_d05b', 'no_data'][code])
         replay = {'kind': 'asm', 'via_host': via_host, 'handle': c['handle'], 'm': c['m'],
                   'packets': [[f[0], f[1], f[2], f[3], f[4].hex()] for f in s],
                   'good': [[cid, p.hex()] for cid, p in c['good']], 'extra': [e.hex() for e in c['extra']]}
@@ -1288,7 +1304,7 @@ def search(ctx):
                            'packets': [[f[0], f[1], f[2], f[3], f[4].hex()] for f in pk],
                            'good': [[cid, pat(*s).hex()] for cid, s in pdus], 'extra': []})
             return
-    for seq in scope_sequences(6):
+    for seq in scope_sequences(5):
         pk = scope_packets(seq, 1)
         got, _ = run_asm_impl(pk, False, 1)
         bad = sent_oracle(pk, got)
